@@ -452,7 +452,7 @@ OTHER_CS = [
 
 def gen_other_image(rng, idx: int) -> Dict[str, Any]:
     cslist, ncomp = rng.choice(OTHER_CS)
-    bits = rng.choice([1, 2, 4, 8, 8, 16])
+    bits = rng.choice([1, 2, 4, 8, 8, 16, 16, 32, 33, 64])       # > 32 bits: implausible, kept undecoded as <name>.img
     named = cslist in (["DeviceRGB"], ["DeviceGray"], ["RGB"], ["G"]) and bits in (1, 8) and not (bits == 1 and ncomp == 3)
     if named:
         bits = rng.choice([2, 4, 16])
@@ -478,7 +478,11 @@ def judge_other(img: Dict[str, Any], name: Optional[str], blob: Optional[bytes],
         if blob != data:
             return ("raw image dump differs from the stored data", data.hex(), blob.hex())
         want = ".%d.%dx%d.img" % (img["bits"], img["w"], img["h"])
-        if not name.endswith(want):
+        if img["bits"] > 32:
+            # _plausible_dimensions: the image is kept undecoded under the bare extension
+            if name.endswith(want):
+                return ("an image with implausible dimensions got a numbered raw-dump name", "<name>.img", name)
+        elif not name.endswith(want):
             return ("raw image dump has a wrong name suffix", want, name)
         return None
     if name.endswith(".jpg"):
@@ -1334,6 +1338,8 @@ def run_corpus(ctx: C.Ctx) -> None:
 
 
 def run(ctx: C.Ctx) -> None:
+    import logging
+    logging.getLogger("pdfminer").setLevel(logging.ERROR)      # damaged images are reported with warnings: not our output
     run_corpus(ctx)
     run_small(ctx)
     run_export(ctx)
